@@ -114,6 +114,128 @@ Ltac kill_leb :=
   | |- context [(?a <? ?b)%N] => destruct (N.ltb_spec a b); [unfold max_len in *; lia|]
   end.
 
+(* ---- generic lemmas (independent of the oracles) ---- *)
+Lemma seq_n_enc {A} (D : nat -> bytes -> outcome (A * bytes)) (l : list A) (bs : list bytes) :
+  Forall2 (fun v b => forall r, ev (fun f => D f (b ++ r) = Ok (v, r))) l bs ->
+  forall r, ev (fun f => seq_n (D f) (length l) (concat bs ++ r) = Ok (l, r)).
+Proof.
+  induction 1 as [|v b l bs Hv _ IH]; intros r.
+  - apply ev_all. reflexivity.
+  - cbn [concat length seq_n]. rewrite <- app_assoc.
+    eapply ev_imp; [|apply (ev_and _ _ (Hv (concat bs ++ r)) (IH r))].
+    cbn beta. intros f [E1 E2]. rewrite E1. cbn [bind]. rewrite E2. reflexivity.
+Qed.
+
+Lemma seq_fields_enc (D : nat -> ty -> bytes -> outcome (val * bytes)) n : forall z bs,
+  length z <= n ->
+  Forall2 (fun tv b => forall r, ev (fun f => D f (fst tv) (b ++ r) = Ok (snd tv, r))) (omit_pass z) bs ->
+  omitted_zero z ->
+  forall r, ev (fun f => seq_fields (D f) (enc_mask z) (concat bs ++ r) = Ok (map snd z, r)).
+Proof.
+  induction n as [|n IH]; intros z bs Hn HF HZ r.
+  { destruct z; [|cbn in Hn; lia]. cbn in HF. inversion HF; subst. apply ev_all. reflexivity. }
+  destruct z as [|[[om t] v] z'].
+  { cbn in HF. inversion HF; subst. apply ev_all. reflexivity. }
+  cbn [omit_pass enc_mask omitted_zero map snd] in *.
+  destruct (om && is_empty_val v).
+  - destruct HZ as [-> HZ]. destruct z' as [|[[om' t'] v'] z''].
+    + inversion HF; subst. apply ev_all. reflexivity.
+    + inversion HF as [|x b l bs' Hb HF']; subst. cbn [concat map snd seq_fields]. rewrite <- app_assoc.
+      cbn [fst snd] in Hb.
+      assert (Hn' : length z'' <= n) by (cbn [length] in Hn; lia).
+      eapply ev_imp; [|apply (ev_and _ _ (Hb (concat bs' ++ r)) (IH z'' bs' Hn' HF' HZ r))].
+      cbn beta. intros f [E1 E2]. rewrite E1. cbn [bind]. rewrite E2. reflexivity.
+  - inversion HF as [|x b l bs' Hb HF']; subst. cbn [concat seq_fields]. rewrite <- app_assoc.
+    cbn [fst snd] in Hb.
+    assert (Hn' : length z' <= n) by (cbn [length] in Hn; lia).
+    eapply ev_imp; [|apply (ev_and _ _ (Hb (concat bs' ++ r)) (IH z' bs' Hn' HF' HZ r))].
+    cbn beta. intros f [E1 E2]. rewrite E1. cbn [bind]. rewrite E2. reflexivity.
+Qed.
+
+Lemma map_insert_fresh k v acc :
+  forallb (fun kv => negb (val_eqb k (fst kv))) acc = true -> map_insert k v acc = acc ++ [(k, v)].
+Proof.
+  induction acc as [|[k' v'] acc IH]; cbn [forallb map_insert app fst]; [reflexivity|].
+  intros H. apply andb_true_iff in H as [H1 H2]. apply negb_true_iff in H1. rewrite H1.
+  now rewrite IH.
+Qed.
+
+Lemma seq_pairs_enc (DK DV : nat -> bytes -> outcome (val * bytes)) ok (m : list (val * val)) (kvs : list (bytes * bytes)) :
+  Forall2 (fun kv e => (forall r, ev (fun f => DK f (fst e ++ r) = Ok (fst kv, r)))
+                       /\ (forall r, ev (fun f => DV f (snd e ++ r) = Ok (snd kv, r)))
+                       /\ ok (fst kv) = true) m kvs ->
+  forall acc, distinct_from acc m = true ->
+  forall r, ev (fun f => seq_pairs (DK f) (DV f) ok (length m) acc
+                           (concat (map (fun kv => fst kv ++ snd kv) kvs) ++ r) = Ok (acc ++ m, r)).
+Proof.
+  induction 1 as [|[k v] [ek ex] m kvs (Hk & Hv & Hok) _ IH]; intros acc Hd r.
+  - apply ev_all. cbn. now rewrite app_nil_r.
+  - cbn [fst snd] in *. cbn [distinct_from] in Hd. apply andb_true_iff in Hd as [Hd1 Hd2].
+    cbn [map concat length seq_pairs fst snd]. rewrite <- !app_assoc.
+    eapply ev_imp; [|apply (ev_and _ _ (Hk (ex ++ concat (map (fun kv => fst kv ++ snd kv) kvs) ++ r))
+                               (ev_and _ _ (Hv (concat (map (fun kv => fst kv ++ snd kv) kvs) ++ r))
+                                           (IH _ Hd2 r)))].
+    cbn beta. intros f (E1 & E2 & E3). rewrite E1. cbn [bind]. rewrite E2. cbn [bind]. rewrite Hok.
+    rewrite (map_insert_fresh _ _ _ Hd1), E3. now rewrite <- app_assoc.
+Qed.
+
+Lemma raw_item_ev d a : raw_item d a -> forall r, ev (fun f => dec_raw f d (a ++ r) = Ok (a, r)).
+Proof.
+  intros [f0 E] r. exists f0. intros f Hf.
+  apply (dec_raw_app _ _ _ _ _ r) in E. cbn [app] in E.
+  eapply dec_raw_mono; [exact E|discriminate|exact Hf].
+Qed.
+
+Lemma split_limit_app (a r : bytes) : split_limit (N.of_nat (length a)) (a ++ r) = (a, r).
+Proof.
+  unfold split_limit. rewrite app_length.
+  destruct (N.leb_spec (N.of_nat (length a + length r)) (N.of_nat (length a))) as [H|H].
+  - destruct r; [now rewrite app_nil_r|cbn [length] in H; lia].
+  - rewrite Nat2N.id, firstn_app, Nat.sub_diag, firstn_all, skipn_app, skipn_all, Nat.sub_diag.
+    cbn. now rewrite app_nil_r.
+Qed.
+
+Lemma dec_raw_int f d z r : int64_ok z -> dec_raw (S f) d (enc_int z ++ r) = Ok (enc_int z, r).
+Proof.
+  unfold int64_ok. cbn [kind_min kind_max]. intros Hz. unfold enc_int. cbn [dec_raw].
+  destruct (Z.ltb_spec z 0) as [Hneg|Hpos].
+  - rd 1%N (Z.to_N (- z - 1)) r. use_head. now rewrite Hhb.
+  - rd 0%N (Z.to_N z) r. use_head. now rewrite Hhb.
+Qed.
+
+Lemma dec_raw_str f d mt a r :
+  mt = 2%N \/ mt = 3%N -> (N.of_nat (length a) < 100000)%N ->
+  dec_raw (S f) d (head mt (N.of_nat (length a)) ++ a ++ r) = Ok (head mt (N.of_nat (length a)) ++ a, r).
+Proof.
+  intros Hmt Hl. cbn [dec_raw].
+  assert (ET : take_o (length a) (a ++ r) = Ok (a, r)) by (unfold take_o; now rewrite take_app).
+  destruct Hmt; subst mt;
+    [rd 2%N (N.of_nat (length a)) (a ++ r) | rd 3%N (N.of_nat (length a)) (a ++ r)].
+  all: use_head; unfold decode_len; hrw; kill_leb; cbn [bind]; rewrite Nat2N.id, ET; cbn [bind]; now rewrite Hhb.
+Qed.
+
+Lemma enc_first fe t v b :
+  enc fe t v = Ok b -> ptr_okb t v = true -> exists x tl, b = x :: tl /\ null_byte x = false.
+Proof.
+  destruct fe as [|fe]; cbn [enc]; [discriminate|].
+  intros Henc Hp. revert Henc.
+  destruct t; destruct v; cbn [ptr_okb] in Hp; try discriminate Hp; try discriminate;
+    repeat dstep; intros Henc; injection Henc as <-; unfold enc_int;
+    repeat match goal with |- context [if ?c then _ else _] => destruct c end;
+    try match goal with
+    | |- context [head ?mt ?n] =>
+      let x := fresh "x" in let tl := fresh "tl" in let E := fresh "E" in let Hx := fresh "Hx" in
+      destruct (head_first mt n) as (x & tl & E & Hx); [lia|]; rewrite E;
+      eexists; eexists; split; [reflexivity|exact Hx]
+    end;
+    try (eexists; eexists; split; [reflexivity|vm_compute; reflexivity]).
+  match goal with |- exists x tl, ?a = _ /\ _ => destruct a as [|x0 tl0]; [discriminate|] end.
+  apply negb_true_iff in Hp. eexists; eexists; split; [reflexivity|exact Hp].
+Qed.
+
+Lemma not_deep d : d < max_depth -> too_deep d = false.
+Proof. intros H. unfold too_deep. destruct (Nat.leb_spec max_depth d); [lia|reflexivity]. Qed.
+
 Section RT.
   Variable O_der : bool -> bytes -> bool.
   Variable O_rfc : bytes -> option Z.
@@ -174,69 +296,9 @@ Section RT.
   Qed.
 
   (* ---- sequences of encoded elements ---- *)
-  Lemma seq_n_enc {A} (D : nat -> bytes -> outcome (A * bytes)) (l : list A) (bs : list bytes) :
-    Forall2 (fun v b => forall r, ev (fun f => D f (b ++ r) = Ok (v, r))) l bs ->
-    forall r, ev (fun f => seq_n (D f) (length l) (concat bs ++ r) = Ok (l, r)).
-  Proof.
-    induction 1 as [|v b l bs Hv _ IH]; intros r.
-    - apply ev_all. reflexivity.
-    - cbn [concat length seq_n]. rewrite <- app_assoc.
-      eapply ev_imp; [|apply (ev_and _ _ (Hv (concat bs ++ r)) (IH r))].
-      cbn beta. intros f [E1 E2]. rewrite E1. cbn [bind]. rewrite E2. reflexivity.
-  Qed.
 
-  Lemma seq_fields_enc (D : nat -> ty -> bytes -> outcome (val * bytes)) n : forall z bs,
-    length z <= n ->
-    Forall2 (fun tv b => forall r, ev (fun f => D f (fst tv) (b ++ r) = Ok (snd tv, r))) (omit_pass z) bs ->
-    omitted_zero z ->
-    forall r, ev (fun f => seq_fields (D f) (enc_mask z) (concat bs ++ r) = Ok (map snd z, r)).
-  Proof.
-    induction n as [|n IH]; intros z bs Hn HF HZ r.
-    { destruct z; [|cbn in Hn; lia]. cbn in HF. inversion HF; subst. apply ev_all. reflexivity. }
-    destruct z as [|[[om t] v] z'].
-    { cbn in HF. inversion HF; subst. apply ev_all. reflexivity. }
-    cbn [omit_pass enc_mask omitted_zero map snd] in *.
-    destruct (om && is_empty_val v).
-    - destruct HZ as [-> HZ]. destruct z' as [|[[om' t'] v'] z''].
-      + inversion HF; subst. apply ev_all. reflexivity.
-      + inversion HF as [|x b l bs' Hb HF']; subst. cbn [concat map snd seq_fields]. rewrite <- app_assoc.
-        cbn [fst snd] in Hb.
-        assert (Hn' : length z'' <= n) by (cbn [length] in Hn; lia).
-        eapply ev_imp; [|apply (ev_and _ _ (Hb (concat bs' ++ r)) (IH z'' bs' Hn' HF' HZ r))].
-        cbn beta. intros f [E1 E2]. rewrite E1. cbn [bind]. rewrite E2. reflexivity.
-    - inversion HF as [|x b l bs' Hb HF']; subst. cbn [concat seq_fields]. rewrite <- app_assoc.
-      cbn [fst snd] in Hb.
-      assert (Hn' : length z' <= n) by (cbn [length] in Hn; lia).
-      eapply ev_imp; [|apply (ev_and _ _ (Hb (concat bs' ++ r)) (IH z' bs' Hn' HF' HZ r))].
-      cbn beta. intros f [E1 E2]. rewrite E1. cbn [bind]. rewrite E2. reflexivity.
-  Qed.
 
-  Lemma map_insert_fresh k v acc :
-    forallb (fun kv => negb (val_eqb k (fst kv))) acc = true -> map_insert k v acc = acc ++ [(k, v)].
-  Proof.
-    induction acc as [|[k' v'] acc IH]; cbn [forallb map_insert app fst]; [reflexivity|].
-    intros H. apply andb_true_iff in H as [H1 H2]. apply negb_true_iff in H1. rewrite H1.
-    now rewrite IH.
-  Qed.
 
-  Lemma seq_pairs_enc (DK DV : nat -> bytes -> outcome (val * bytes)) ok (m : list (val * val)) (kvs : list (bytes * bytes)) :
-    Forall2 (fun kv e => (forall r, ev (fun f => DK f (fst e ++ r) = Ok (fst kv, r)))
-                         /\ (forall r, ev (fun f => DV f (snd e ++ r) = Ok (snd kv, r)))
-                         /\ ok (fst kv) = true) m kvs ->
-    forall acc, distinct_from acc m = true ->
-    forall r, ev (fun f => seq_pairs (DK f) (DV f) ok (length m) acc
-                             (concat (map (fun kv => fst kv ++ snd kv) kvs) ++ r) = Ok (acc ++ m, r)).
-  Proof.
-    induction 1 as [|[k v] [ek ex] m kvs (Hk & Hv & Hok) _ IH]; intros acc Hd r.
-    - apply ev_all. cbn. now rewrite app_nil_r.
-    - cbn [fst snd] in *. cbn [distinct_from] in Hd. apply andb_true_iff in Hd as [Hd1 Hd2].
-      cbn [map concat length seq_pairs fst snd]. rewrite <- !app_assoc.
-      eapply ev_imp; [|apply (ev_and _ _ (Hk (ex ++ concat (map (fun kv => fst kv ++ snd kv) kvs) ++ r))
-                                 (ev_and _ _ (Hv (concat (map (fun kv => fst kv ++ snd kv) kvs) ++ r))
-                                             (IH _ Hd2 r)))].
-      cbn beta. intros f (E1 & E2 & E3). rewrite E1. cbn [bind]. rewrite E2. cbn [bind]. rewrite Hok.
-      rewrite (map_insert_fresh _ _ _ Hd1), E3. now rewrite <- app_assoc.
-  Qed.
 
   (* ---- helpers for wrappers ---- *)
   Lemma dec_ok_head f : forall d t b v r, dec f d t b = Ok (v, r) -> exists h r0, read_head b = Ok (h, r0).
@@ -253,59 +315,10 @@ Section RT.
     - destruct (dec f 0 TBytes b) as [[x y]| | |] eqn:ER; cbn [bind]; try discriminate. intros _. eapply IH; eauto.
   Qed.
 
-  Lemma raw_item_ev d a : raw_item d a -> forall r, ev (fun f => dec_raw f d (a ++ r) = Ok (a, r)).
-  Proof.
-    intros [f0 E] r. exists f0. intros f Hf.
-    apply (dec_raw_app _ _ _ _ _ r) in E. cbn [app] in E.
-    eapply dec_raw_mono; [exact E|discriminate|exact Hf].
-  Qed.
 
-  Lemma split_limit_app (a r : bytes) : split_limit (N.of_nat (length a)) (a ++ r) = (a, r).
-  Proof.
-    unfold split_limit. rewrite app_length.
-    destruct (N.leb_spec (N.of_nat (length a + length r)) (N.of_nat (length a))) as [H|H].
-    - destruct r; [now rewrite app_nil_r|cbn [length] in H; lia].
-    - rewrite Nat2N.id, firstn_app, Nat.sub_diag, firstn_all, skipn_app, skipn_all, Nat.sub_diag.
-      cbn. now rewrite app_nil_r.
-  Qed.
 
-  Lemma dec_raw_int f d z r : int64_ok z -> dec_raw (S f) d (enc_int z ++ r) = Ok (enc_int z, r).
-  Proof.
-    unfold int64_ok. cbn [kind_min kind_max]. intros Hz. unfold enc_int. cbn [dec_raw].
-    destruct (Z.ltb_spec z 0) as [Hneg|Hpos].
-    - rd 1%N (Z.to_N (- z - 1)) r. use_head. now rewrite Hhb.
-    - rd 0%N (Z.to_N z) r. use_head. now rewrite Hhb.
-  Qed.
 
-  Lemma dec_raw_str f d mt a r :
-    mt = 2%N \/ mt = 3%N -> (N.of_nat (length a) < 100000)%N ->
-    dec_raw (S f) d (head mt (N.of_nat (length a)) ++ a ++ r) = Ok (head mt (N.of_nat (length a)) ++ a, r).
-  Proof.
-    intros Hmt Hl. cbn [dec_raw].
-    assert (ET : take_o (length a) (a ++ r) = Ok (a, r)) by (unfold take_o; now rewrite take_app).
-    destruct Hmt; subst mt;
-      [rd 2%N (N.of_nat (length a)) (a ++ r) | rd 3%N (N.of_nat (length a)) (a ++ r)].
-    all: use_head; unfold decode_len; hrw; kill_leb; cbn [bind]; rewrite Nat2N.id, ET; cbn [bind]; now rewrite Hhb.
-  Qed.
 
-  Lemma enc_first fe t v b :
-    enc fe t v = Ok b -> ptr_okb t v = true -> exists x tl, b = x :: tl /\ null_byte x = false.
-  Proof.
-    destruct fe as [|fe]; cbn [enc]; [discriminate|].
-    intros Henc Hp. revert Henc.
-    destruct t; destruct v; cbn [ptr_okb] in Hp; try discriminate Hp; try discriminate;
-      repeat dstep; intros Henc; injection Henc as <-; unfold enc_int;
-      repeat match goal with |- context [if ?c then _ else _] => destruct c end;
-      try match goal with
-      | |- context [head ?mt ?n] =>
-        let x := fresh "x" in let tl := fresh "tl" in let E := fresh "E" in let Hx := fresh "Hx" in
-        destruct (head_first mt n) as (x & tl & E & Hx); [lia|]; rewrite E;
-        eexists; eexists; split; [reflexivity|exact Hx]
-      end;
-      try (eexists; eexists; split; [reflexivity|vm_compute; reflexivity]).
-    match goal with |- exists x tl, ?a = _ /\ _ => destruct a as [|x0 tl0]; [discriminate|] end.
-    apply negb_true_iff in Hp. eexists; eexists; split; [reflexivity|exact Hp].
-  Qed.
 
 
   (* ---- leaves in "eventually" form ---- *)
@@ -394,9 +407,6 @@ Section RT.
   Definition rt_at (fe : nat) : Prop :=
     forall d t v b, wf d t v -> enc fe t v = Ok b ->
     forall r, ev (fun f => dec f d t (b ++ r) = Ok (v, r)).
-
-  Lemma not_deep d : d < max_depth -> too_deep d = false.
-  Proof. intros H. unfold too_deep. destruct (Nat.leb_spec max_depth d); [lia|reflexivity]. Qed.
 
   Section Step.
     Variable fe : nat.
